@@ -579,7 +579,7 @@ class Expression:
         return Absolute(self)
 
     def switch_endian(self, fmt):
-        if isinstance(fmt, str) and len(fmt) > 1:
+        if isinstance(fmt, str) and len(fmt) > 1 and calcsize(fmt) > 1:
             return SwitchEndian(self, fmt)
         return self
 
